@@ -74,6 +74,31 @@ def fam_dist(ctx, ka, kb, template, fr_name, perm, form):
         ctx.outcome('inter-raise')
 
 
+def fam_dist_m1m2(ctx, axis, kb):
+    """a Point with the coordinate -1 against a Point / Line / Plane anchored at the same coordinates except -2 in that place: the
+    distance is exactly 1.  (CPython has hash(-1) == hash(-2), for floats and tuples of them too: any shortcut of distance() that goes
+    through hashes rather than coordinates shows up in the float replay of these paths.)"""
+    e = [tuple(F(1) if i == j else F(0) for i in range(3)) for j in range(3)]
+    a, b, c = e[axis], e[(axis + 1) % 3], e[(axis + 2) % 3]
+    s_ = ctx.choice('s', [0, 1])
+    pa = R.affine((F(0), F(0), F(0)), (F(-1), a), (s_, b))
+    pb = R.affine((F(0), F(0), F(0)), (F(-2), a), (s_, b))
+    P_ = lambda v: Point(*[ctx.lib(x) for x in v])
+    V_ = lambda v: Vector(*[ctx.lib(x) for x in v])
+    A = P_(pa)
+    Bq = P_(pb) if kb == 'Point' else Line(P_(pb), V_(c)) if kb == 'Line' else Plane(P_(pb), V_(a))
+    sig = 'C10:distance(Point,%s) between coordinates -1 and -2' % kb
+    for x, y in ((A, Bq), (Bq, A)):
+        st, r = call(lambda: G.distance(x, y))
+        if st == 'raise':
+            ctx.fail(sig + ' raises %s' % exc_sig(r), repr(r))
+        ctx.require(near(r, 1, F(1, 10 ** 9)), sig + ' is not 1')
+    if kb == 'Point':        # (Point.distance is defined for Points only)
+        st, r = call(lambda: A.distance(Bq))
+        ctx.require(st == 'ok' and near(r, 1, F(1, 10 ** 9)), sig + ' (method form) is not 1')
+    ctx.outcome('apart')
+
+
 def families(tier, seed):
     import random
     rng = random.Random(seed)
@@ -91,6 +116,9 @@ def families(tier, seed):
                         if form == 'method' and ka == 'Point' and kb != 'Point':
                             continue
                         fams.append(Family('%s-%s/%s/%s/%s' % (ka, kb, tp, tag, form), fam_dist, (ka, kb, tp, fr_name, perm, form)))
+    for axis in range(3):
+        for kb in ('Point', 'Line', 'Plane'):
+            fams.append(Family('Point-%s/-1vs-2/axis%d' % (kb, axis), fam_dist_m1m2, (axis, kb)))
     return fams
 
 
